@@ -4,6 +4,7 @@
 //! feature off the crate is byte-for-byte what it is without this module.
 
 use std::cell::Cell;
+use std::sync::OnceLock;
 
 use crate::delimiters::Delimiters;
 use crate::errors::TeraResult;
@@ -127,4 +128,22 @@ pub fn listings(
             }
         })
         .collect())
+}
+
+/// Process-wide callback invoked by the VM at its scheduling points.
+static YIELD_HOOK: OnceLock<fn(u8)> = OnceLock::new();
+
+/// Installs a callback the VM calls before dispatching every instruction (`0`), between
+/// formatting a value into the escape scratch buffer and escaping it (`1`), and before writing
+/// to the output or a capture buffer (`2`). Can only be set once per process; returns whether
+/// this call installed it.
+pub fn set_yield_hook(hook: fn(u8)) -> bool {
+    YIELD_HOOK.set(hook).is_ok()
+}
+
+#[inline]
+pub(crate) fn yield_point(kind: u8) {
+    if let Some(hook) = YIELD_HOOK.get() {
+        hook(kind);
+    }
 }
